@@ -242,4 +242,46 @@ theorem decodeFrame_inv (r : Reader) (g : List Header) (bytes : Bytes) (hi : RIn
       · rename_i hk; exact absurd hk hk10
       · exact ⟨hi, fun blk hb => by cases hb⟩
 
+
+/-! ### every reader state a connection can reach satisfies the invariant -/
+
+theorem rinv_new (mfs : Nat) : RInv (Reader.new mfs) [] :=
+  ⟨new_tableOk _, fun p hp => by cases hp⟩
+
+/-- what the connection does to its reader: decode a frame, or apply acknowledged local settings -/
+inductive ROp where
+  | frame (bytes : Bytes)
+  | setMaxFrameSize (v : Nat)
+  | setMaxHeaderListSize (v : Nat)
+  | queueSizeUpdate (v : Nat)
+  | buffer (buf : Bytes) (need : Option Nat)      -- the reassembly buffer (`LengthDelimitedCodec`)
+
+def ROp.apply (rg : Reader × List Header) : ROp → Reader × List Header
+  | .frame bytes => ((decodeFrame rg.1 bytes).1, ghostNext rg.2 rg.1 bytes)
+  | .setMaxFrameSize v => (rg.1.setMaxFrameSize v, rg.2)
+  | .setMaxHeaderListSize v => (rg.1.setMaxHeaderListSize v, rg.2)
+  | .queueSizeUpdate v => ({ rg.1 with hpack := rg.1.hpack.queueSizeUpdate v }, rg.2)
+  | .buffer buf need => ({ rg.1 with buf := buf, need := need }, rg.2)
+
+def runROps (rg : Reader × List Header) (ops : List ROp) : Reader × List Header := ops.foldl ROp.apply rg
+
+theorem rinv_apply (rg : Reader × List Header) (op : ROp) (hi : RInv rg.1 rg.2) :
+    RInv (op.apply rg).1 (op.apply rg).2 := by
+  cases op with
+  | frame bytes => exact (decodeFrame_inv rg.1 rg.2 bytes hi).1
+  | setMaxFrameSize v => exact rinv_same _ _ _ hi rfl rfl
+  | setMaxHeaderListSize v => exact rinv_same _ _ _ hi rfl rfl
+  | queueSizeUpdate v => exact ⟨hi.table, hi.part⟩
+  | buffer buf need => exact rinv_same _ _ _ hi rfl rfl
+
+/-- the invariant holds after ANY sequence of frames and settings changes from a fresh reader -/
+theorem rinv_reachable (mfs : Nat) (ops : List ROp) :
+    RInv (runROps (Reader.new mfs, []) ops).1 (runROps (Reader.new mfs, []) ops).2 := by
+  suffices h : ∀ (ops : List ROp) (rg : Reader × List Header), RInv rg.1 rg.2 → RInv (runROps rg ops).1 (runROps rg ops).2 from
+    h ops _ (rinv_new mfs)
+  intro ops
+  induction ops with
+  | nil => intro rg h; exact h
+  | cons op rest ih => intro rg h; exact ih _ (rinv_apply rg op h)
+
 end H2V.Lemmas.ConnHttpP
